@@ -13,6 +13,7 @@ import (
 	"github.com/hashicorp/eventlogger/filters/encrypt"
 	"google.golang.org/protobuf/types/known/wrapperspb"
 
+	"verifharness/internal/cryp"
 	"verifharness/internal/rt"
 )
 
@@ -299,7 +300,17 @@ type gen struct {
 
 func (g *gen) canary() string {
 	g.n++
-	return fmt.Sprintf("CANARY%xq%dz", g.seed&0xffffff, g.n)
+	c := fmt.Sprintf("CANARY%xq%dz", g.seed&0xffffff, g.n)
+	// plaintext that merely looks like the filter's own output is plaintext all the same
+	switch g.r.Intn(24) {
+	case 0:
+		return cryp.EncPrefix + c
+	case 1:
+		return cryp.HmacPrefix + c
+	case 2:
+		return cryp.Redacted + c
+	}
+	return c
 }
 
 func leafKinds() []string {
